@@ -351,21 +351,45 @@ def c20(tier, rng, seed):
     # "no line content affects the handling of any other line", on the tool alone: the stream without the lines
     # that were rejected (as the library linked into the harness classifies them) must give the same records on
     # standard output, byte for byte (a rejected line leaves no trace: C17's theorems, Proofs/TransmitCli.v)
+    def is_unfragmented(line):
+        j = line.find(b'\\', 1) if line[:1] == b'\\' else -1
+        f = line[j + 1:].split(b',')
+        return len(f) > 2 and f[1] == b'1' and f[2] == b'1'
+    def is_sentence(line):
+        j = line.find(b'\\', 1) if line[:1] == b'\\' else -1
+        return line[j + 1:j + 2] in (b'!', b'$')
     def without_rejected(i):
+        """also without the unfragmented sentences that were delivered (they leave no trace either): what remains
+        are the fragments, and the records of the groups they complete must be the same"""
         if res[i] or ho[i].strip() == 'X': return None
         lines = streams[i].split(b'\n')
         if lines and lines[-1] == b'': lines.pop()
         items = ho[i].split(' ')[1:]
-        if len(items) != len(lines) or not any(it[0] == 'e' for it in items) or not any(it[0] == 'o' for it in items): return None
-        kept = b''.join(l + b'\n' for l, it in zip(lines, items) if it[0] != 'e')
-        try:
-            rc1, out1, _ = run_cli(exe, streams[i]); rc2, out2, _ = run_cli(exe, kept)
-        except subprocess.TimeoutExpired:
-            return 'the tool did not terminate within 120 s'
-        if out1 != out2:
+        if len(items) != len(lines) or not any(it[0] == 'o' for it in items): return None
+        seen = []
+        for variant in (0, 1, 2):
+            # 0: without the rejected lines; 1: also without the unfragmented sentences that were delivered; 2: without
+            # every unfragmented sentence, delivered or not, and every line that is no sentence at all — all fragments
+            # stay, also those that were rejected in the full stream (a group must not be lost to the lines between)
+            if variant < 2: gone = [it[0] == 'e' or (variant == 1 and it[0] == 'o' and is_unfragmented(l)) for l, it in zip(lines, items)]
+            else: gone = [is_unfragmented(l) or not is_sentence(l) for l in lines]
+            if not any(gone) or gone in seen: continue
+            seen.append(gone)
+            kept = b''.join(l + b'\n' for l, g in zip(lines, gone) if not g)
+            try:
+                rc1, out1, _ = run_cli(exe, streams[i]); rc2, out2, _ = run_cli(exe, kept)
+            except subprocess.TimeoutExpired:
+                return 'the tool did not terminate within 120 s'
             a, b = out1.split(b'\n'), out2.split(b'\n')
-            k = next((j for j in range(min(len(a), len(b))) if a[j] != b[j]), min(len(a), len(b)))
-            return 'with the rejected lines removed from the stream, stdout record %d changes: %r / %r' % (k, (a + [b''])[k][:300], (b + [b''])[k][:300])
+            if a and a[-1] == b'': a.pop()
+            if b and b[-1] == b'': b.pop()
+            owners = [j for j, it in enumerate(items) if it[0] == 'o']
+            if len(owners) != len(a): return False        # already reported by the line-by-line comparison
+            a = [r for r, j in zip(a, owners) if not gone[j]]
+            if a != b:
+                k = next((j for j in range(min(len(a), len(b))) if a[j] != b[j]), min(len(a), len(b)))
+                return 'with the %s removed from the stream, the record of another line changes (record %d of the remaining ones): %r / %r' % (
+                    ['rejected lines', 'rejected lines and the unfragmented sentences', 'unfragmented sentences and the lines that are no sentences'][variant], k, (a + [b''])[k][:300], (b + [b'(no record)'])[k][:300])
         return False
     with ThreadPoolExecutor(max_workers=c.NCPU) as ex:
         res2 = list(ex.map(without_rejected, range(len(streams))))
@@ -394,9 +418,24 @@ def replay_c20(rp):
         lines = stream.split(b'\n')
         if lines and lines[-1] == b'': lines.pop()
         items = ho[0].split(' ')[1:]
+        def is_unfragmented(line):
+            j = line.find(b'\\', 1) if line[:1] == b'\\' else -1
+            f = line[j + 1:].split(b',')
+            return len(f) > 2 and f[1] == b'1' and f[2] == b'1'
         if len(items) == len(lines):
-            kept = b''.join(l + b'\n' for l, it in zip(lines, items) if it[0] != 'e')
-            if run_cli(exe, stream)[1] != run_cli(exe, kept)[1]: r = 'stdout differs when the rejected lines are removed from the stream'
+            def is_sentence(line):
+                j = line.find(b'\\', 1) if line[:1] == b'\\' else -1
+                return line[j + 1:j + 2] in (b'!', b'$')
+            for variant in (0, 1, 2):
+                if variant < 2: gone = [it[0] == 'e' or (variant == 1 and it[0] == 'o' and is_unfragmented(l)) for l, it in zip(lines, items)]
+                else: gone = [is_unfragmented(l) or not is_sentence(l) for l in lines]
+                kept = b''.join(l + b'\n' for l, g in zip(lines, gone) if not g)
+                a = run_cli(exe, stream)[1].split(b'\n'); b = run_cli(exe, kept)[1].split(b'\n')
+                if a and a[-1] == b'': a.pop()
+                if b and b[-1] == b'': b.pop()
+                owners = [j for j, it in enumerate(items) if it[0] == 'o']
+                if len(owners) == len(a) and [x for x, j in zip(a, owners) if not gone[j]] != b:
+                    r = 'the records of the other lines change when %s are removed from the stream' % ['the rejected lines', 'the rejected lines and the unfragmented sentences', 'the unfragmented sentences and the lines that are no sentences'][variant]
     print(r or 'behaves as the model says')
     if r: print('VIOLATION property=C20 replay=(this file)'); return 1
     return 0
